@@ -5,7 +5,7 @@ import itertools
 
 import numpy as np
 
-from checks.common import hash_tag
+from checks.common import hash_tag, relayout, xf_build, xf_names
 from qmc import gen as G
 from qmc import oracle as O
 from qmc.loader import load
@@ -68,6 +68,10 @@ def cases(tier, seed):
         for kind in ("mono", "hh"):
             lam = [float(v) for v in ([3, 3, 2, 1, 1, 1, 0, -1, -2, -2, 5, 7][:n])]
             out.append({"key": f"spec/n={n}/large/{kind}", "grp": "spec", "n": n, "lam": lam, "kind": kind, "scale": 0})
+    # unusual-but-legal Hermitian variants (component supports, modulus ties, congruence grading, circulant, special matrices, layouts)
+    for n in range(1, N + 2):
+        for nm in xf_names(n, n, hermitian=True):
+            out.append({"key": f"xf/n={n}/{nm}", "grp": "xf", "n": n, "xf": nm})
     for n in (1, 2, 3):
         out.append({"key": f"reject/nonsquare/{n}x{n + 1}", "grp": "rej", "sub": "nonsquare", "n": n})
         out.append({"key": f"reject/nonherm/{n}", "grp": "rej", "sub": "nonherm", "n": n})
@@ -98,6 +102,11 @@ def make_input(case, seed):
                 A[i, j] = q
                 A[j, i] = q * O.CONJ
         return A, None
+    if grp == "xf":
+        fill = G.Fill(seed, stream=hash_tag(case["key"]))
+        A, lay = xf_build(case["xf"], n, n, fill, hermitian=True)
+        case["_lay"] = lay
+        return A, None
     if grp == "laplace":
         A = np.zeros((n, n, 4))
         for i in range(n):
@@ -108,11 +117,11 @@ def make_input(case, seed):
     raise ValueError
 
 
-def check_tridiag(lib, A, tags, fails):
+def check_tridiag(lib, A, tags, fails, lay="C"):
     n = A.shape[0]
     nA = max(O.fro(A), 1e-300)
     bud = O.budget(nA, dims=16 * n * n)
-    Aq = G.to_quat(A)
+    Aq = relayout(G.to_quat(A), lay)
     before = Aq.tobytes()
     ok, res = call(lib.tridiag.tridiagonalize, Aq)
     if Aq.tobytes() != before:
@@ -140,11 +149,11 @@ def check_tridiag(lib, A, tags, fails):
         fails.append(fail("PAP^H=B", f"||P A P^H - B||_F = {err:.3e} (||A||={nA:.3e})", fn="tridiagonalize", **tags))
 
 
-def check_eig(lib, A, lam_exp, tags, fails):
+def check_eig(lib, A, lam_exp, tags, fails, lay="C"):
     n = A.shape[0]
     nA = max(O.fro(A), 1e-300)
     bud = O.budget(nA, dims=16 * n * n)
-    Aq = G.to_quat(A)
+    Aq = relayout(G.to_quat(A), lay)
     before = Aq.tobytes()
     ok, res = call(lib.eigen.quaternion_eigendecomposition, Aq)
     if Aq.tobytes() != before:
@@ -208,9 +217,10 @@ def run_case(case, seed):
     lam_or = lam if lam is not None else O.eigvals_herm(A).tolist()
     mult = max(sum(1 for y in lam_or if abs(y - x) <= 1e-9 * max(1.0, abs(x))) for x in lam_or)
     tags = {"grp": grp, "n": n, "max_mult": mult}
+    lay = case.get("_lay", "C")
     if n >= 2:
-        check_tridiag(lib, A, tags, fails)
-    check_eig(lib, A, lam, tags, fails)
+        check_tridiag(lib, A, tags, fails, lay)
+    check_eig(lib, A, lam, tags, fails, lay)
     return {
         "key": case["key"],
         "fails": fails,
